@@ -569,6 +569,9 @@ def runGroup {C : Type} [DecidableEq C] (conv : Conv C) (cfg : Cfg) (tpl : Nat) 
 
 inductive Layout where
   | separate | group
+  /-- plain (ungrouped) values sent through the group pipeline: `MapGroup` maps its sequence to them one by one
+  (`map_scalars=True`), the rest of the pipeline follows -/
+  | scalars
   deriving Repr, DecidableEq
 
 structure RunSpec where
@@ -584,10 +587,41 @@ inductive HStep where
   | del (ps : List String)
   deriving Repr, DecidableEq
 
+/-- `MapGroup.run`, lines 170-173: the data list and `context.group` of a group must have the same length -/
+def mapGroupGuard (nData nGroup : Nat) : Except Exc Unit :=
+  if nData ≠ nGroup then .error .lenaRuntimeError else .ok ()
+
+/-- `MapGroup.run`, lines 160-168, for a value that is not a group (`map_scalars=True`): the member sequence is
+applied to the value itself; then `MakeFilename` (of the group), `RenderLaTeX`, `Write`, `LaTeXToPDF`, `PDFToPNG` -/
+def runScalarPlot {C : Type} [DecidableEq C] (conv : Conv C) (cfg : Cfg) (ms gms : List (MFKey × Tpl)) (tpl : Nat)
+    (w : World C) (pl : Plot) : Except Exc (World C × Option (Val C)) :=
+  match memberStage conv cfg ms w pl with
+  | .error e => .error e
+  | .ok (w2, v2) => tailStage conv cfg tpl w2 (mfVal cfg.gmf.overwrite gms v2)
+
+def runScalarPlots {C : Type} [DecidableEq C] (conv : Conv C) (cfg : Cfg) (ms gms : List (MFKey × Tpl)) (tpl : Nat) :
+    World C → List Plot → Except Exc (World C × List (Val C))
+  | w, [] => .ok (w, [])
+  | w, pl :: rest =>
+    match runScalarPlot conv cfg ms gms tpl w pl with
+    | .error e => .error e
+    | .ok (w', ov) =>
+      match runScalarPlots conv cfg ms gms tpl w' rest with
+      | .error e => .error e
+      | .ok (w'', vs) => .ok (w'', ov.toList ++ vs)
+
+def runScalars {C : Type} [DecidableEq C] (conv : Conv C) (cfg : Cfg) (tpl : Nat) (w : World C) (pls : List Plot) :
+    Except Exc (World C × List (Val C)) :=
+  match mfInit cfg.mf, mfInit cfg.gmf with
+  | .error e, _ => .error e
+  | _, .error e => .error e
+  | .ok ms, .ok gms => runScalarPlots conv cfg ms gms tpl w pls
+
 def runSpec {C : Type} [DecidableEq C] (conv : Conv C) (w : World C) (r : RunSpec) : Except Exc (World C × List (Val C)) :=
   match r.layout with
   | .separate => runSeparate conv r.cfg r.tpl w r.plots
   | .group => runGroup conv r.cfg r.tpl w r.plots
+  | .scalars => runScalars conv r.cfg r.tpl w r.plots
 
 /-- one step on the world; a run that raises leaves the world as it was (the histories of the harness
 stop at an exception) -/
